@@ -70,6 +70,9 @@ func (p *testParser) classicTest(fval string, pastAndOr bool) syntax.TestExpr {
 			p.errf("%s must be followed by an expression", opStr)
 		}
 	default:
+		if _, ok := b.X.(*syntax.Word); !ok {
+			p.errf("expected -a, -o or the end of the arguments after a complex expression, found %s", opStr)
+		}
 		b.Y = p.followWord(opStr)
 	}
 	return b
